@@ -41,6 +41,56 @@ type walCase struct {
 	defaultMax bool // MaximumWalFileSizeBytes not given
 	boundary   bool // max chosen next to Size()+len(record) of one of the appends
 	ops        []walOp
+	// base directory of the log and of the cut images, relative to the case's scratch directory ("" = "log" / "cut"):
+	// nested, with glob / regexp meta characters and other unusual but legal characters in the names
+	dirName, cutName string
+}
+
+// fragments of directory names: everything but '/' and NUL is legal in a name
+var walNameFragments = []struct{ class, s string }{
+	{"glob-class", "wal[0]"}, {"glob-class", "shard[a-c]"}, {"glob-class", "["}, {"glob-class", "]"}, {"glob-class", "[!x]"}, {"glob-class", "[^0-9]"}, {"glob-class", "[]"},
+	{"glob-wildcard", "a?b"}, {"glob-wildcard", "*"}, {"glob-wildcard", "x*.wal"}, {"glob-wildcard", "?"},
+	{"backslash", "back\\slash"}, {"backslash", "\\[0\\]"}, {"backslash", "end\\"},
+	{"space", "with space"}, {"space", " lead"}, {"space", "trail "}, {"space", "tab\there"}, {"space", "new\nline"},
+	{"percent", "100%"}, {"percent", "%d%s%v"}, {"percent", "%2F"},
+	{"unicode", "ünïcödé"}, {"unicode", "日本語"}, {"unicode", "🙂"}, {"unicode", "e\u0301"}, {"unicode", "\xff\xfe"},
+	{"regexp", "(a|b)+"}, {"regexp", "^x$"}, {"regexp", "a.b"}, {"regexp", "{a,b}"},
+	{"shell", "~"}, {"shell", "$HOME"}, {"shell", "#tag"}, {"shell", "-dash"}, {"shell", "semi;colon"}, {"shell", "quote'\""}, {"shell", "&|<>"}, {"shell", "!"},
+	{"dots", "..dots"}, {"dots", "dot."}, {"dots", "..."}, {"dots", ".hidden"},
+	{"wal-suffix", "dir.wal"}, {"wal-suffix", "000001.wal"},
+	{"plain", "log"}, {"plain", "data"}, {"plain", "0"},
+}
+
+// walGenDirName: 1-4 nested components of 1-3 fragments each; the first component starts with lead so that the log
+// and the cut directories of a case never nest. Returns the relative path and the classes used.
+func walGenDirName(r *Rng, lead string) (string, []string) {
+	depth := 1 + r.Intn(4)
+	var comps []string
+	classes := map[string]bool{}
+	for d := 0; d < depth; d++ {
+		comp := ""
+		if d == 0 {
+			comp = lead
+		}
+		for k := 1 + r.Intn(3); k > 0; k-- {
+			f := walNameFragments[r.Intn(len(walNameFragments))]
+			if len(comp)+len(f.s) > 200 {
+				break
+			}
+			comp += f.s
+			classes[f.class] = true
+		}
+		if comp == "." || comp == ".." {
+			comp += "x"
+		}
+		comps = append(comps, comp)
+	}
+	var cl []string
+	for k := range classes {
+		cl = append(cl, k)
+	}
+	sort.Strings(cl)
+	return filepath.Join(comps...), cl
 }
 
 var walMaxSizes = []uint64{0, 1, 7, 8, 9, 10, 16, 20, 21, 33, 50, 64, 100, 256, 1000, 4096, 1 << 20}
@@ -126,6 +176,9 @@ func (c *walCase) String() string {
 	var sb strings.Builder
 	fmt.Fprintf(&sb, "max=%d defaultMax=%v buf=%d comp=%d ops=", c.max, c.defaultMax, c.buf, c.comp)
 	sb.WriteString(c.opsString())
+	if c.dirName != "" {
+		fmt.Fprintf(&sb, " dir=%q cutdir=%q", c.dirName, c.cutName)
+	}
 	return sb.String()
 }
 
@@ -314,7 +367,7 @@ func runWal(res *Result, drv *Driver, seed uint64, n int, tier string, only int)
 		return err
 	}
 	defer os.RemoveAll(base)
-	res.Rule = "programs of Append/AppendSync/Rotate x maximum file size (0 ... default) x writer buffer size x compression, then every byte-level cut of every file (sampled for long files); " +
+	res.Rule = "programs of Append/AppendSync/Rotate x maximum file size (0 ... default) x writer buffer size x compression x base directory names (1-4 levels deep; glob classes [0] [a-c] [!x], ? and *, backslashes, spaces/tab/newline, %, unicode and invalid UTF-8, regexp/shell characters, dots, names ending in .wal; plain in one case of five), then every byte-level cut of every file (sampled for long files); " +
 		"one evaluation = one model comparison or one oracle evaluation; non-trivial = at least one record appended; distinct = distinct (program, options) strings"
 	for i := 0; i < n; i++ {
 		if only >= 0 && i != only {
@@ -334,6 +387,22 @@ func runWal(res *Result, drv *Driver, seed uint64, n int, tier string, only int)
 			continue
 		}
 		c := genWalCase(r, tier)
+		// the directory names come from a second generator state (programs and options are those of the plain cases);
+		// one case in five keeps the plain names
+		if r2 := NewRng(seed^0xd1a9a3e5, uint64(i)); !r2.Chance(20) {
+			var cl, cl2 []string
+			c.dirName, cl = walGenDirName(r2, "L")
+			c.cutName, cl2 = walGenDirName(r2, "C")
+			for _, k := range cl {
+				res.Stat("dir-name:" + k)
+			}
+			for _, k := range cl2 {
+				res.Stat("cut-dir-name:" + k)
+			}
+			res.Stat(fmt.Sprintf("dir-name:depth=%d", 1+strings.Count(c.dirName, string(filepath.Separator))))
+		} else {
+			res.Stat("dir-name:log (fixed plain name)")
+		}
 		if err := walOne(res, drv, r, c, i, dir, tier); err != nil {
 			return err
 		}
@@ -366,7 +435,10 @@ func walOne(res *Result, drv *Driver, r *Rng, c *walCase, idx int, base string, 
 		res.Stat("buf:>=36")
 	}
 	dir := filepath.Join(base, "log")
-	if err := os.Mkdir(dir, 0o755); err != nil {
+	if c.dirName != "" {
+		dir = filepath.Join(base, c.dirName)
+	}
+	if err := os.MkdirAll(dir, 0o755); err != nil {
 		return err
 	}
 	opts, err := c.options(dir)
@@ -539,7 +611,10 @@ func walOne(res *Result, drv *Driver, r *Rng, c *walCase, idx int, base string, 
 
 	// ---- kills at the byte level: files 0..k with file k cut / absent
 	cutDir := filepath.Join(base, "cut")
-	if err := os.Mkdir(cutDir, 0o755); err != nil {
+	if c.cutName != "" {
+		cutDir = filepath.Join(base, c.cutName)
+	}
+	if err := os.MkdirAll(cutDir, 0o755); err != nil {
 		return err
 	}
 	for k, f := range post {
